@@ -125,6 +125,8 @@ struct Rx : public AbstractGatewayMessageReceiver {
 // the harness compiles against trees with and without it.  Without it the wrap-around is produced on the wire (RebaseIDs).
 template<class G> static auto PresetCounter(G & gw, uint32 v, int) -> decltype(gw.VerifSetSendMessageIDCounter(v), bool()) { gw.VerifSetSendMessageIDCounter(v); return true; }
 template<class G> static bool PresetCounter(G &, uint32, long) { return false; }
+template<class G> static auto PresetPacketCounter(G & gw, uint32 v, int) -> decltype(gw.VerifSetSendPacketIDCounter(v), bool()) { gw.VerifSetSendPacketIDCounter(v); return true; }   // mini tunnel: 24-bit packet id below the compression level byte
+template<class G> static bool PresetPacketCounter(G &, uint32, long) { return false; }
 
 // ---- scenario
 struct Scen {
@@ -204,7 +206,7 @@ static void RunSender(Scen & sc, int s, const std::vector<MessageRef> & msgs)
 {
    SendIO io(&sc.pk[s], sc.mtu, s, sc.holdDen, g.next());
    AbstractMessageIOGatewayRef gw;
-   if (sc.mini) { MiniPacketTunnelIOGateway * mg = new MiniPacketTunnelIOGateway(MakeSlave(sc.slave), sc.ctorMtu); gw.SetRef(mg); if (sc.zl) mg->SetZLibCompressionLevel((uint8)sc.zl); }
+   if (sc.mini) { MiniPacketTunnelIOGateway * mg = new MiniPacketTunnelIOGateway(MakeSlave(sc.slave), sc.ctorMtu); gw.SetRef(mg); if (sc.zl) mg->SetZLibCompressionLevel((uint8)sc.zl); if (sc.viaSetter[s] && !PresetPacketCounter(*mg, sc.idBase[s], 0)) { sc.viaSetter[s] = false; sc.idBase[s] = 0; } }
    else {
       PacketTunnelIOGateway * tg = new PacketTunnelIOGateway(MakeSlave(sc.slave), sc.ctorMtu); gw.SetRef(tg);
       if (sc.viaSetter[s]) { if (!PresetCounter(*tg, sc.idBase[s], 0)) sc.viaSetter[s] = false; }
@@ -396,10 +398,19 @@ static void Generate(Scen & sc, bool small)
       // limits: the mini tunnel carries a buffer only if header + chunk header + buffer fit one packet
       for (size_t i = 0; i < sc.sent[s].size(); i++) sc.fits[s].push_back(sc.mini ? (MINI_HDR + MINI_CHUNK_HDR + enc + sc.sent[s][i].size() <= std::max<uint32>(sc.mtu, 17)) : 1);
       if (!sc.mini && R(3) == 0) { sc.idBase[s] = R(2) ? (uint32)(0xFFFFFFFFu - R((uint32)msgs.size() + 2)) : (uint32)g.next(); sc.viaSetter[s] = R(2) == 0; }
+      if (sc.mini && R(3) == 0) { sc.idBase[s] = 0xFFFFFFu - R((uint32)msgs.size() + 2); sc.viaSetter[s] = true; }
       RunSender(sc, s, msgs);
       if (caseBad) return;
       if (!sc.mini && sc.idBase[s] && !sc.viaSetter[s]) { long w = RebaseIDs(sc.pk[s], sc.idBase[s]); if (w) vh::stat("messages_sent_after_id_wraparound", w); vh::stat("senders_with_rebased_ids"); }
-      else if (sc.viaSetter[s]) vh::stat("senders_with_counter_preset_by_setter");
+      else if (sc.viaSetter[s] && !sc.mini) {
+         vh::stat("senders_with_counter_preset_by_setter"); long w = 0;
+         for (size_t i = 0; i < sc.pk[s].size(); i++) { std::vector<Chunk> cs; (void)ParseTunnelPacket(sc.pk[s][i].bytes, cs); for (size_t q = 0; q < cs.size(); q++) { if (i == 0 && q == 0 && cs[q].id != sc.idBase[s]) { fprintf(stderr, "HARNESS-ABORT: the counter setter had no effect\n"); abort(); } if (cs[q].off == 0 && cs[q].id < sc.idBase[s]) w++; } }
+         if (w) { vh::stat("messages_sent_after_id_wraparound", w); vh::stat("messages_sent_after_id_wraparound_by_setter", w); }
+      }
+      else if (sc.viaSetter[s] && sc.mini) {
+         vh::stat("mini_senders_with_packet_id_preset");
+         for (size_t i = 0; i < sc.pk[s].size(); i++) if (sc.pk[s][i].bytes.size() >= 12 && (DefaultEndianConverter::Import<uint32>((const uint8 *)sc.pk[s][i].bytes.data() + 8) & 0xFFFFFF) < sc.idBase[s]) vh::stat("mini_packets_sent_after_packet_id_wraparound");
+      }
       sc.sentSet[s].insert(sc.sent[s].begin(), sc.sent[s].end());
       ClassifyKnownDefects(sc, s);
    }
